@@ -87,13 +87,15 @@ impl Parser for MarkdownParser {
         for token in iterator {
             match token {
                 MarkdownToken::DocumentConfig(config_lines) => {
-                    let parsed_config = serde_yaml::from_str(&config_lines.join_newline())
-                        .with_context(|| {
-                            format!(
-                                "parse document config from front-matter:\n{:?}",
-                                config_lines.join_newline()
-                            )
-                        })?;
+                    // the last line has its line ending as well: a block scalar keeps it
+                    let parsed_config =
+                        serde_yaml::from_str(&format!("{}\n", config_lines.join_newline()))
+                            .with_context(|| {
+                                format!(
+                                    "parse document config from front-matter:\n{:?}",
+                                    config_lines.join_newline()
+                                )
+                            })?;
                     config = config.with_overrides_from(&parsed_config);
                 }
                 MarkdownToken::Line(_, line) => {
